@@ -160,7 +160,9 @@ inductive Listener
   | smResume | smEnable | bind
   deriving DecidableEq, Repr
 
-inductive Conn | disconnected | connecting | connected
+/-- `hung`: see-other-host was received on a TLS link; `connectToHost` called from inside the `disconnected` slot of the
+QSslSocket leaves it in ConnectingState for ever (observed: TCP connects, `connected` is never emitted) -/
+inductive Conn | disconnected | connecting | connected | hung
   deriving DecidableEq, Repr
 
 structure St where
@@ -229,7 +231,8 @@ def closeSession (s : St) : R :=
 /-- `_q_socketDisconnected` (the socket is already gone) -/
 def onSocketDisconnected (s : St) : R :=
   let s1 := { s with authenticated := false }
-  if s1.redirect then ({ s1 with redirect := false, conn := .connecting, encrypted := false }, [])
+  if s1.redirect then
+    ({ s1 with redirect := false, conn := (if s1.encrypted then .hung else .connecting), encrypted := false }, [])
   else closeSession s1
 
 /-- `XmppSocket::disconnectFromHost` -/
@@ -492,7 +495,10 @@ def sendIq (s : St) : R :=
 def step (s : St) : Ev → R
   | .connectToServer =>
     if s.conn = .disconnected then ({ s with conn := .connecting, encrypted := false, hasToken := s.cfg.token }, [])
-    else (s, [.sig .error])
+    else
+      -- `QSslSocket::connectToHost` resets the socket to unencrypted mode before `QAbstractSocket` refuses the call
+      -- (observed); what the link does afterwards is outside the model (never generated except as a last op)
+      ({ s with encrypted := false }, [.sig .error])
   | .socketConnected =>
     if s.conn = .connecting then handleStart { s with conn := .connected, headerSeen := false, wedged := false }
     else (s, [])
